@@ -10,6 +10,7 @@ open Gossamer Gossamer.C19
    output vc  : `novoters` | `vs=<total>/<threshold>[id:w,...] valid=<bool> n=<n> dup=<n> eq=<n> inv=<n>`
    output just: `<DecodeGrandpaJustificationVerifyFinalizes>/<Verify>` each one of
                 ok err-target err-commit err-sig err-ancestry err-unused novoters err-auth
+   vcl  like vc, with precommit numbers that disagree with the tree; output `returns` (no panic, no hang)
    `hp`, `ip`, `r`, `s`, `off` only steer how the harness materialises hashes, ids, signatures, headers. -/
 
 def splitOn1 (s : String) (sep : String) : List String := s.splitOn sep
@@ -108,6 +109,8 @@ def step (line : String) : String :=
     | [] => ("", "")
   match words hdr with
   | "vc" :: rest => (stepVC (kvs rest) body).getD "bad-op"
+  -- numbers that disagree with the tree: outside the model; the only claim is that the call returns
+  | "vcl" :: rest => if (stepVC (kvs rest) body).isSome then "returns" else "bad-op"
   | "just" :: rest => (stepJust (kvs rest) body).getD "bad-op"
   | _ => "bad-op"
 
